@@ -29,7 +29,7 @@ FAMILIES = ["gauss_cov_scalar", "gauss_cov_vec", "gauss_cov_full", "gauss_prec_f
             "laplace_scalar_geom", "uniform_scalar_geom", "gauss_sqrtcov_scalar", "gauss_sqrtcov_vec", "gauss_sqrtcov_diagmat",
             "gauss_sqrtprec_vec", "gauss_sqrtprec_diagmat", "gauss_sqrtprec_scalar", "gauss_cov_diagmat", "gauss_prec_scalar",
             "gauss_sparse_cov_tridiag", "gauss_sparse_prec_tridiag", "gauss_sparse_sqrtprec_diag", "gmrf_order0", "gmrf_order2", "gmrf2d_order0", "gmrf2d_order2", "gauss_sqrtprec_full_forder", "gauss_sqrtprec_sparse_bidiag", "gauss_mean_cuqiarray", "gmrf_mean_cuqiarray",
-            "user_defined_gauss", "gauss_cov_full_hugescale", "gauss_cov_full_badscale", "user_defined_row"]
+            "user_defined_gauss", "gauss_cov_full_hugescale", "gauss_cov_full_badscale", "normal_scalar_geom_cont2d", "gamma_scalar_geom_cont2d", "user_defined_row"]
 
 
 def build_dist(rec):
@@ -54,6 +54,11 @@ def build_dist(rec):
         S_ = np.diag([1e-5, 1e3])
         rho = [0.8, -0.6, 0.3, -0.9][z % 4]
         return D.Gaussian(np.zeros(2), S_ @ np.array([[1.0, rho], [rho, 1.0]]) @ S_)
+    if fam in ("normal_scalar_geom_cont2d", "gamma_scalar_geom_cont2d"):
+        # scalar parameters spread over a 2-D grid geometry; the grid of that geometry may be refined later ("regrid")
+        import cuqi
+        G2 = cuqi.geometry.Continuous2D((3, 3))
+        return D.Normal(0.3, 0.8, geometry=G2) if fam.startswith("normal") else D.Gamma(2.0, 1.5, geometry=G2)
     if fam == "user_defined_row":
         # a user sampler that returns ONE draw as a row of shape (1, dim) (what multivariate_normal(mean, cov, 1) gives)
         st_ = np.random.RandomState(z)
@@ -169,7 +174,7 @@ def build_dist(rec):
     if fam == "gamma":
         return D.Gamma(np.linspace(1.0, 3.0, n), np.linspace(0.5, 2.0, n))
     if fam == "invgamma":
-        return D.InverseGamma(np.linspace(2.0, 3.0, n), np.zeros(n), np.linspace(0.5, 2.0, n))
+        return D.InverseGamma(np.linspace(2.0, 3.0, n), (z % 3) * 0.7 * np.ones(n), np.linspace(0.5, 2.0, n))     # shifted for 2 of 3
     if fam == "beta":
         return D.Beta(np.linspace(0.5, 3.0, n), np.linspace(1.0, 2.0, n))
     if fam == "laplace":
@@ -364,6 +369,10 @@ class StreamsRun:
                 if k == "a_sample" and self._fam(op) == "user_defined_buffer":
                     outs.pop()                # its sampler owns its own stream: only the hand-over oracle applies
                     continue
+                if k == "a_sample" and self._fam(op).endswith("_geom_cont2d"):
+                    outs.pop()                # (its geometry is re-gridded during the run: no solo replay from the recipe)
+                    self._shape_oracle(op, dists[op["d"]], out_obj=None, arr=out)
+                    continue
                 if k == "a_sample":
                     self._shape_oracle(op, dists[op["d"]], out_obj=None, arr=out)
                     if rs_digest(g) == gd and op["N"] > 0:
@@ -381,11 +390,12 @@ class StreamsRun:
                         g.set_state(post)
             elif k.startswith("b_"):
                 b_count += 1
-                if k == "b_sample" and (self.touched.get(op["d"]) or self.conditional.get(op["d"])):
-                    continue
+                if k == "b_sample" and (self.touched.get(op["d"]) or self.conditional.get(op["d"])
+                                        or self._fam(op).endswith("_geom_cont2d")):
+                    continue                  # (a re-gridded geometry changes how much of the global stream a draw consumes)
                 out = self.b_op(op, dists, bs)
-                if self._fam(op) in ("user_defined_buffer", "user_defined_row"):
-                    continue                  # (draws from its private stream)
+                if self._fam(op) in ("user_defined_buffer", "user_defined_row") or self._fam(op).endswith("_geom_cont2d"):
+                    continue                  # (draws from its private stream / geometry re-gridded during the run)
                 outs.append((i, "B", out, None))
                 ctx.log("b_out", core.digest(out))
                 if rs_digest(g) != gd:
@@ -396,6 +406,15 @@ class StreamsRun:
                 self._cond_refuse(op, g)
             elif k in ("setparam", "make_conditional"):
                 self._setter_op(op, dists, g)
+            elif k == "regrid":
+                # the grid of the (caller-owned) geometry is refined between two draws: draws follow the geometry
+                dd = dists[op["d"]]
+                kk = int(op["k"])
+                dd.geometry.grid = (np.linspace(0, 1, kk), np.linspace(0, 1, kk))
+                self.touched[op["d"]] = True
+                ctx.fault("geometry_grid_refined")
+                self._shape_oracle({"N": 1, "d": op["d"]}, dd, out_obj=None, arr=None)
+                self._shape_oracle({"N": 3, "d": op["d"]}, dd, out_obj=None, arr=None)
         if a_count and b_count:
             ctx.nontrivial = True
             ctx.fault("interleave", min(a_count, b_count))
@@ -656,11 +675,13 @@ class StreamsRun:
         g = np.random.RandomState(5)
         o = dist.sample(N, rng=g)
         if N == 1:
-            ok = isinstance(o, cuqi.array.CUQIarray) and o.geometry == dist.geometry and np.asarray(o).size == dist.dim
+            ok = isinstance(o, cuqi.array.CUQIarray) and o.geometry == dist.geometry and np.asarray(o).size == dist.dim \
+                and np.asarray(o).size == int(np.prod(dist.geometry.par_shape))
             if dist.dim > 1:
                 ok = ok and np.asarray(o).shape == (dist.dim,)
         else:
             ok = isinstance(o, cuqi.samples.Samples) and o.geometry == dist.geometry and o.Ns == N and \
+                o.samples.shape[0] in (int(np.prod(dist.geometry.par_shape)), N if dist.dim == 1 else -1) and \
                 (o.samples.shape == (dist.dim, N) or (dist.dim == 1 and o.samples.shape == (N,)))
         if not ok:
             ctx.violate(PROP, "wrapping_or_shape", self.sig(fam=self._fam(op), N1=(N == 1)),
@@ -720,6 +741,13 @@ def gen_case(r, tier):
             d["n"] = r.choice([76, 80, 90])        # across the dense/sparse storage switch (MIN_DIM_SPARSE = 75)
         if d["fam"].startswith("gauss_sparse"):
             d["n"] = max(d["n"], 2)          # a 1x1 sparse matrix is not an accepted Gaussian input (outside C05)
+    # a 1-D field with as many nodes as a 2-D field of the same scenario has pixels (same boundary condition and order)
+    for d in list(dists):
+        if d["fam"] == "gmrf2d" and len(dists) < 4:
+            dists.append({"fam": "gmrf_zero", "n": 9, "zseed": r.randrange(1, 10 ** 6)})
+        elif d["fam"] in ("gmrf2d_order0", "gmrf2d_order2") and len(dists) < 4:
+            dists.append({"fam": "gmrf_order" + d["fam"][-1], "n": 16, "zseed": r.randrange(1, 10 ** 6)})
+    nd = len(dists)
     sc = {"dists": dists, "gseed": r.randrange(2 ** 31), "zseed": r.randrange(1, 10 ** 6)}
     ops = []
     for _ in range(r.randint(3, 10)):
@@ -744,6 +772,11 @@ def gen_case(r, tier):
             ops.append({"op": "setparam", "d": r.randrange(nd), "pick": r.randrange(10 ** 6), "scalar": r.random() < 0.5})
         else:
             ops.append({"op": "make_conditional", "d": r.randrange(nd), "N": N})
+    for j_, d in enumerate(dists):
+        if d["fam"].endswith("_geom_cont2d"):
+            pos_ = r.randint(0, len(ops))
+            ops.insert(pos_, {"op": "regrid", "d": j_, "k": r.choice([4, 5, 2])})
+            ops.insert(r.randint(0, pos_), {"op": "a_sample", "d": j_, "N": r.choice([1, 3]), "repeat": False})
     return {"scenario": sc, "ops": ops}
 
 
